@@ -62,6 +62,8 @@ def materialise(job, cap=6, with_key=False, pre=()):
     h, seq, sd = job[:3]
     if list(seq) == ['GIANT']:      # the one very large document (giant_model below), addressed like any other (headers, seq, seed) job
         return giant_model(sd, headers=tuple(h))
+    if list(seq) == ['DISTINCT']:
+        return distinct_single_model(sd)
     if list(seq[:1]) == ['ALIGNED']:
         return aligned_model(sd, total=int(seq[1]), headers=tuple(h))
     if list(seq[:1]) == ['GIANT']:
